@@ -257,8 +257,8 @@ Definition mon_client (m : mon) (f : frame) : mon + Z :=
           if ms_cli_closed s then bad V_CLOSED_STREAM
           else
             let cw := m_conn_win m - len in
-            if negb (ms_closed s) && (ms_win s - len <? 0) then bad V_STREAM_WINDOW
-            else if cw <? 0 then bad V_CONN_WINDOW
+            if (0 <? len) && negb (ms_closed s) && (ms_win s - len <? 0) then bad V_STREAM_WINDOW
+            else if (0 <? len) && (cw <? 0) then bad V_CONN_WINDOW
             else
               let upd s0 := let s1 := if ms_closed s0 then s0 else ms_add_win (- len) s0 in
                             if es then ms_set_cli_closed s1 else s1 in
